@@ -14,6 +14,7 @@ from .state import *  # noqa
 from .engine import EmptyLit, BoundMethod
 
 
+INT_FLOAT_LIMIT = 2 ** 1024 - 2 ** 970   # |i| >= this: float(i) raises OverflowError
 USED: set = set()   # names of library contracts actually exercised (reported in evidence)
 
 
@@ -237,7 +238,7 @@ def b_float(eng, st, args, kwargs, node):
     if k is KInt or k is KBool or isinstance(k, KEnum):
         x = eng.coerce(st, v, KInt)
         if k is KInt and not eng.spec_mode and eng.reg.rt_helpers.get("model_int_overflow"):
-            ov = z3.Or(x.term > 10**309, x.term < -10**309)
+            ov = z3.Or(x.term > INT_FLOAT_LIMIT - 1, x.term < -INT_FLOAT_LIMIT + 1)
             if st.branch(ov, "float-overflow"):
                 eng.raise_(OverflowError, node)
         return eng.coerce(st, x, KFloat)
@@ -260,7 +261,7 @@ def b_float(eng, st, args, kwargs, node):
             return SV(KFloat, val_to_float_term(t))
         if st.branch(z3.Or(V.is_vflt(t), V.is_vint(t), V.is_vbool(t)), "float(num)"):
             if st.branch(V.is_vint(t), "float(int)"):
-                big = z3.Or(V.i(t) > 10**309, V.i(t) < -10**309)
+                big = z3.Or(V.i(t) > INT_FLOAT_LIMIT - 1, V.i(t) < -INT_FLOAT_LIMIT + 1)
                 if st.branch(big, "float-overflow"):
                     eng.raise_(OverflowError, node)
             return SV(KFloat, val_to_float_term(t))
@@ -380,7 +381,7 @@ def b_math_isnan(eng, st, args, kwargs, node):
         if st.branch(V.is_vflt(t), "isnan(float)"):
             return SV(KBool, f_is_nan(V.f(t)))
         if st.branch(V.is_vint(t), "isnan(int)"):
-            big = z3.Or(V.i(t) > 10**309, V.i(t) < -10**309)
+            big = z3.Or(V.i(t) > INT_FLOAT_LIMIT - 1, V.i(t) < -INT_FLOAT_LIMIT + 1)
             if st.branch(big, "isnan-overflow"):
                 eng.raise_(OverflowError, node)
             return SV(KBool, z3.BoolVal(False))
@@ -546,6 +547,24 @@ def b_minmax(eng, st, args, kwargs, node, is_max):
                 raise Unsupported("max/min on %s" % a2.kind)
             acc = SV(a2.kind, z3.If(c, b2.term, a2.term))
         return acc
+    if len(args) == 1 and not kwargs and isinstance(args[0].kind, (KDict, KList)):
+        v = args[0]
+        ks = eng.dict_keyseq(st, v) if isinstance(v.kind, KDict) else v
+        ek = ks.kind.elem
+        if ek in (KInt, KFloat):
+            n = eng.list_len(st, ks)
+            if not eng.spec_mode and not st.branch(n > 0, "max-empty"):
+                eng.raise_(ValueError, node)
+            r = st.fresh("mx", sort_of(ek))
+            j, i = st.fresh("mxj", z3.IntSort()), z3.Int("mx_i")
+            e_i = eng.list_get(st, ks, i).term
+            if ek is KInt:
+                dom = (e_i <= r) if is_max else (e_i >= r)
+            else:
+                dom = z3.Not(f_lt(r, e_i)) if is_max else z3.Not(f_lt(e_i, r))
+            eng.assume(st, z3.And(0 <= j, j < n, eng.list_get(st, ks, j).term == r))
+            eng.assume(st, qforall([i], z3.Implies(z3.And(0 <= i, i < n), dom), patterns=[e_i]))
+            return SV(ek, r)
     h = eng.reg.specfuncs.get("minmax_seq")
     if h is not None:
         return h(eng, st, args, kwargs, node, is_max)
